@@ -1,0 +1,237 @@
+//! Observation hooks for external runtime monitors.
+//!
+//! Only compiled with the off-by-default cargo feature `verif-hooks`. Every
+//! sink is thread-local and disarmed by default: a hook that finds its sink
+//! disarmed returns immediately, never allocates, never panics and never
+//! changes control flow.
+
+use crate::{
+    ast::{Name, Program, Term},
+    builtins::DefaultFunction,
+    machine::{cost_model::ExBudget, value::Value},
+};
+use std::cell::RefCell;
+
+/// One snapshot of a program travelling through `aiken_optimize_and_intern`.
+pub struct OptSnapshot {
+    /// Sequence number of the `aiken_optimize_and_intern` call (per thread).
+    pub call: usize,
+    /// Nesting depth of that call (1 = outermost).
+    pub depth: usize,
+    /// "input", the name of the pass that is about to run, or "final".
+    pub stage: &'static str,
+    pub program: Program<Name>,
+}
+
+#[derive(Default)]
+pub struct OptSink {
+    pub snapshots: Vec<OptSnapshot>,
+    next_call: usize,
+    stack: Vec<usize>,
+    last_exited: Option<(usize, usize)>,
+}
+
+/// Cross-check of `OccurrenceTracker::trusted_count` in `inline_reducer`.
+#[derive(Default)]
+pub struct InlineSink {
+    pub checked: u64,
+    /// (parameter, trusted count, independently counted free occurrences, body)
+    pub disagreements: Vec<(String, usize, usize, String)>,
+}
+
+/// One saturated builtin application as charged by the machine.
+pub struct BuiltinEvent {
+    pub fun: DefaultFunction,
+    pub args: Vec<Value>,
+    pub cost: ExBudget,
+}
+
+thread_local! {
+    static OPT: RefCell<Option<OptSink>> = const { RefCell::new(None) };
+    static INLINE: RefCell<Option<InlineSink>> = const { RefCell::new(None) };
+    static BUILTINS: RefCell<Option<Vec<BuiltinEvent>>> = const { RefCell::new(None) };
+}
+
+pub fn arm_opt() {
+    OPT.with(|s| *s.borrow_mut() = Some(OptSink::default()));
+}
+
+pub fn take_opt() -> Option<OptSink> {
+    OPT.with(|s| s.borrow_mut().take())
+}
+
+pub fn arm_inline() {
+    INLINE.with(|s| *s.borrow_mut() = Some(InlineSink::default()));
+}
+
+pub fn take_inline() -> Option<InlineSink> {
+    INLINE.with(|s| s.borrow_mut().take())
+}
+
+pub fn arm_builtins() {
+    BUILTINS.with(|s| *s.borrow_mut() = Some(Vec::new()));
+}
+
+pub fn take_builtins() -> Option<Vec<BuiltinEvent>> {
+    BUILTINS.with(|s| s.borrow_mut().take())
+}
+
+pub struct OptGuard(bool);
+
+impl Drop for OptGuard {
+    fn drop(&mut self) {
+        if self.0 {
+            OPT.with(|s| {
+                if let Ok(mut s) = s.try_borrow_mut() {
+                    if let Some(sink) = s.as_mut() {
+                        let depth = sink.stack.len();
+                        if let Some(call) = sink.stack.pop() {
+                            sink.last_exited = Some((call, depth));
+                        }
+                    }
+                }
+            });
+        }
+    }
+}
+
+/// H1: entry of `aiken_optimize_and_intern`.
+pub fn opt_enter(program: &Program<Name>) -> OptGuard {
+    OPT.with(|s| {
+        let Ok(mut s) = s.try_borrow_mut() else {
+            return OptGuard(false);
+        };
+        let Some(sink) = s.as_mut() else {
+            return OptGuard(false);
+        };
+        let call = sink.next_call;
+        sink.next_call += 1;
+        sink.stack.push(call);
+        let depth = sink.stack.len();
+        sink.snapshots.push(OptSnapshot {
+            call,
+            depth,
+            stage: "input",
+            program: program.clone(),
+        });
+        OptGuard(true)
+    })
+}
+
+/// H1: entry of one optimiser pass (only recorded inside
+/// `aiken_optimize_and_intern`).
+pub fn opt_stage(stage: &'static str, program: &Program<Name>) {
+    OPT.with(|s| {
+        let Ok(mut s) = s.try_borrow_mut() else {
+            return;
+        };
+        let Some(sink) = s.as_mut() else {
+            return;
+        };
+        let depth = sink.stack.len();
+        let Some(call) = sink.stack.last().copied() else {
+            return;
+        };
+        sink.snapshots.push(OptSnapshot {
+            call,
+            depth,
+            stage,
+            program: program.clone(),
+        });
+    })
+}
+
+/// H1: the value `aiken_optimize_and_intern` returned to the code generator.
+pub fn opt_final(program: &Program<Name>) {
+    OPT.with(|s| {
+        let Ok(mut s) = s.try_borrow_mut() else {
+            return;
+        };
+        let Some(sink) = s.as_mut() else {
+            return;
+        };
+        let Some((call, depth)) = sink.last_exited.take() else {
+            return;
+        };
+        sink.snapshots.push(OptSnapshot {
+            call,
+            depth,
+            stage: "final",
+            program: program.clone(),
+        });
+    })
+}
+
+/// Free occurrences of `name` in `term`, honouring shadowing. Written for the
+/// monitor; deliberately shares nothing with the optimiser's own counters.
+pub fn free_occurrences(term: &Term<Name>, name: &Name) -> usize {
+    let mut count = 0;
+    let mut stack = vec![term];
+    while let Some(t) = stack.pop() {
+        match t {
+            Term::Var(n) => {
+                if n.text == name.text && n.unique == name.unique {
+                    count += 1;
+                }
+            }
+            Term::Lambda {
+                parameter_name,
+                body,
+            } => {
+                if !(parameter_name.text == name.text && parameter_name.unique == name.unique) {
+                    stack.push(body);
+                }
+            }
+            Term::Apply { function, argument } => {
+                stack.push(function);
+                stack.push(argument);
+            }
+            Term::Delay(b) | Term::Force(b) => stack.push(b),
+            Term::Case { constr, branches } => {
+                stack.push(constr);
+                stack.extend(branches.iter());
+            }
+            Term::Constr { fields, .. } => stack.extend(fields.iter()),
+            Term::Constant(_) | Term::Builtin(_) | Term::Error => {}
+        }
+    }
+    count
+}
+
+/// H2: `inline_reducer` is about to trust `trusted` as the number of
+/// occurrences of `parameter` in `body`.
+pub fn inline_trusted(parameter: &Name, body: &Term<Name>, trusted: usize) {
+    INLINE.with(|s| {
+        let Ok(mut s) = s.try_borrow_mut() else {
+            return;
+        };
+        let Some(sink) = s.as_mut() else {
+            return;
+        };
+        sink.checked += 1;
+        let counted = free_occurrences(body, parameter);
+        if counted != trusted && sink.disagreements.len() < 16 {
+            let text = format!("{}_{}", parameter.text, parameter.unique.to_string());
+            let mut shown = format!("{body:?}");
+            shown.truncate(2000);
+            sink.disagreements.push((text, trusted, counted, shown));
+        }
+    })
+}
+
+/// H3: the machine charged `cost` for a saturated application of `fun`.
+pub fn builtin_charged(fun: DefaultFunction, args: &[Value], cost: ExBudget) {
+    BUILTINS.with(|s| {
+        let Ok(mut s) = s.try_borrow_mut() else {
+            return;
+        };
+        let Some(sink) = s.as_mut() else {
+            return;
+        };
+        sink.push(BuiltinEvent {
+            fun,
+            args: args.to_vec(),
+            cost,
+        });
+    })
+}
